@@ -46,7 +46,7 @@ def _float_values(cls: str, n: int, rng: np.random.Generator, wide: bool) -> np.
     if cls == "pow2":
         return rng.choice([-1.0, 1.0], n) * 2.0 ** rng.integers(-6, 7, n).astype(np.float64)
     if cls == "f64only":
-        base = np.array([1 + 2.0**-30, 1 - 2.0**-31, 1e-40, -1e-40, 1e39, -1e39, 3 + 2.0**-40, 0.1])
+        base = np.array([1 + 2.0**-30, 1 - 2.0**-31, 1e-40, -1e-40, -(1 + 2.0**-29), 0.7, 3 + 2.0**-40, 0.1])
         return rng.choice(base, n) * rng.choice([1.0, 1.0, 0.5, 2.0], n)
     raise ValueError(cls)
 
